@@ -152,6 +152,15 @@ CHECKS = {
         design_ref='DESIGN.md §5 C14',
         note='Trusted base: vf/reflex.py; the piece bookkeeping in vf/checks/c14.py. Package order in the table is not prescribed.',
         technique='runtime monitoring: reference composition oracle over generated package graphs'),
+    'C12': dict(
+        category='exploration',
+        text='Trace monitor: a sys.addaudithook hook records every open() while carts are loaded (#include) or built (require) inside a temp universe with '
+             'location-bearing files everywhere and a hostile file-system mode in which every path outside the roots "exists"; an open() outside the '
+             'harness-computed roots, or spliced content from there, is a violation. Path strings are enumerated completely up to 3 (thorough 4) segments '
+             'over the hostile alphabet, across load-path and cart-location configurations.',
+        design_ref='DESIGN.md §5 C12',
+        note='Trusted base: CPython audit events for open(); permitted roots computed by the harness. Existence probes are recorded, not judged. No symlinks.',
+        technique='runtime monitoring: audit-hook trace monitor with hostile file system (fault-injecting environment)'),
 }
 
 NOT_BUILT = 'check not built yet in this session (design in DESIGN.md §5); not claimed until its monitor runs silent on the unchanged tree'
